@@ -129,6 +129,21 @@ Lemma Z_height_C : dotR Z C = dotR Z A.
 Proof. pose proof Z_orth_w as H. unfold w in H. rewrite dot_sub_r in H. lra. Qed.
 End Basis.
 
+(* ---------------------------------------------------------------- the parallelism guard (relative: det^2 <= eps |d1|^2 |d2|^2) *)
+Lemma guard_det (d1 d2 : R * R) (eps : R) : 0 < eps ->
+  oleb Rops (omul Rops (g_det2 Rops d1 d2) (g_det2 Rops d1 d2)) (omul Rops (omul Rops eps (dot2 Rops d1 d1)) (dot2 Rops d2 d2)) = false ->
+  g_det2 Rops d1 d2 <> 0.
+Proof.
+  intros He G Z0. rewrite Z0 in G. cbn [Rops oleb omul] in G. unfold Rleb in G.
+  destruct (Rle_dec _ _) as [L|L]; [discriminate|]. apply L.
+  destruct d1 as [a b], d2 as [c d]. unfold dot2. cbn [Rops oadd omul fst snd].
+  assert (0 <= a * a + b * b) by nra. assert (0 <= c * c + d * d) by nra.
+  assert (0 <= eps * (a * a + b * b)) by nra. nra.
+Qed.
+
+Lemma eps_pos : 0 < odiv Rops (oZ Rops 1) (oZ Rops 1000000000000000000000000).
+Proof. rewrite !oZ_IZR. cbn [Rops odiv]. apply Rdiv_lt_0_compat; [lra|apply IZR_lt; reflexivity]. Qed.
+
 (* ---------------------------------------------------------------- the 2D intersection of the two bisectors *)
 Lemma bisectors_2d (x1 y1 x2 y2 x3 y3 sx sy : R) :
   let q1 := (x1, y1) in let q2 := (x2, y2) in let q3 := (x3, y3) in
@@ -141,15 +156,9 @@ Lemma bisectors_2d (x1 y1 x2 y2 x3 y3 sx sy : R) :
   (sx - x1) * (sx - x1) + (sy - y1) * (sy - y1) = (sx - x3) * (sx - x3) + (sy - y3) * (sy - y3).
 Proof.
   cbv zeta. unfold g_intersect_2lines2D.
-  destruct (oleb Rops _ _) eqn:G; [|discriminate].
+  destruct (oleb Rops _ _) eqn:G; [discriminate|].
   intros E. inversion E as [[Ex Ey]]. clear E.
-  assert (D : g_det2 Rops (snd (wsub Rops (x2, y2) (x1, y1)), 0 - fst (wsub Rops (x2, y2) (x1, y1)))
-                          (snd (wsub Rops (x3, y3) (x1, y1)), 0 - fst (wsub Rops (x3, y3) (x1, y1))) <> 0).
-  { intros Z0. rewrite Z0 in G. rewrite oabs_Rabs, Rabs_R0 in G.
-    unfold Rops, Rleb in G. cbn [oleb odiv oZ opos omul oadd o1 o0] in G.
-    destruct (Rle_dec _ 0) as [L|L]; [|discriminate].
-    assert (0 < 1 / IZR 1000000000000) by (apply Rdiv_lt_0_compat; [lra|apply IZR_lt; reflexivity]).
-    rewrite <- oZ_IZR in H. unfold Rops in H. cbn [oZ opos omul oadd o1] in H. lra. }
+  apply (guard_det _ _ _ eps_pos) in G. rename G into D.
   unfold g_det2, wsub, wadd, wdiv, wscale, dot2 in *. unfR. cbn [fst snd] in *.
   subst sx sy. split; field; lra.
 Qed.
@@ -227,14 +236,8 @@ Proof.
       by (unfold wsub; cbn [Rops osub fst snd]; f_equal; ring).
     replace (wsub Rops (x3 + a, y3 + b) (x1 + a, y1 + b)) with (wsub Rops (x3, y3) (x1, y1))
       by (unfold wsub; cbn [Rops osub fst snd]; f_equal; ring).
-    destruct (oleb Rops _ _) eqn:G; [|reflexivity]. cbn [omap]. f_equal.
-    assert (D : g_det2 Rops (snd (wsub Rops (x2, y2) (x1, y1)), osub Rops (o0 Rops) (fst (wsub Rops (x2, y2) (x1, y1))))
-                            (snd (wsub Rops (x3, y3) (x1, y1)), osub Rops (o0 Rops) (fst (wsub Rops (x3, y3) (x1, y1)))) <> 0).
-    { intros Z0. rewrite Z0 in G. rewrite oabs_Rabs, Rabs_R0 in G.
-      unfold Rops, Rleb in G. cbn [oleb odiv oZ opos omul oadd o1 o0] in G.
-      destruct (Rle_dec _ 0) as [L|L]; [|discriminate].
-      assert (0 < 1 / IZR 1000000000000) by (apply Rdiv_lt_0_compat; [lra|apply IZR_lt; reflexivity]).
-      rewrite <- oZ_IZR in H. unfold Rops in H. cbn [oZ opos omul oadd o1] in H. lra. }
+    cbv zeta. destruct (oleb Rops _ _) eqn:G; [reflexivity|]. cbn [omap]. f_equal.
+    apply (guard_det _ _ _ eps_pos) in G. rename G into D.
     unfold g_det2, wsub, wadd, wdiv, wscale, dot2 in *. unfR. cbn [fst snd] in *.
     f_equal; field; lra. }
   unfold osub, o0 in I. cbn [Rops] in I. cbn [Rops osub o0]. rewrite I. clear I.
@@ -260,4 +263,82 @@ Proof.
   destruct (wf_faces m WF F HF) as [L _].
   rewrite !(P_map (rigid Q t) m) by (apply (face_vertex_rng m WF); [assumption|Lia.lia]).
   apply circumcenter_rigid, ND, HF.
+Qed.
+
+(* ---------------------------------------------------------------- the circumcentre scales with the triangle *)
+Lemma Rleb_scale (k x y : R) : 0 < k -> Rleb (k * x) (k * y) = Rleb x y.
+Proof.
+  intros Hk. unfold Rleb. destruct (Rle_dec (k * x) (k * y)) as [L|L], (Rle_dec x y) as [M|M]; try reflexivity; exfalso.
+  - apply M. apply Rmult_le_reg_l with k; assumption.
+  - apply L. apply Rmult_le_compat_l; lra.
+Qed.
+
+Lemma cross_scl_r (s : R) (a b : V3) : cross a (scl s b) = scl s (cross a b).
+Proof. dvec a. dvec b. unfold scl. unfR. apply vec_eq3; ring. Qed.
+
+Lemma face_basis_scale (s : R) (A B C : V3) : 0 < s -> 0 < n2 (cross (B -v A) (C -v A)) ->
+  g_face_basis Rops (scl s A) (scl s B) (scl s C) = g_face_basis Rops A B C.
+Proof.
+  intros Hs ND. unfold g_face_basis. cbv zeta. rewrite !scl_sub.
+  rewrite (normalized_scl s Hs (B -v A)) by (apply (u_pos A B C ND)).
+  rewrite cross_scl_r. rewrite (normalized_scl s Hs) by (apply (Xw_pos A B C ND)). reflexivity.
+Qed.
+
+Lemma intersect_scale (s x1 y1 x2 y2 x3 y3 : R) : 0 < s ->
+  g_intersect_2lines2D Rops
+    (wdiv Rops (wadd Rops (s * x1, s * y1) (s * x2, s * y2)) (oZ Rops 2))
+    (snd (wsub Rops (s * x2, s * y2) (s * x1, s * y1)), osub Rops (o0 Rops) (fst (wsub Rops (s * x2, s * y2) (s * x1, s * y1))))
+    (wdiv Rops (wadd Rops (s * x1, s * y1) (s * x3, s * y3)) (oZ Rops 2))
+    (snd (wsub Rops (s * x3, s * y3) (s * x1, s * y1)), osub Rops (o0 Rops) (fst (wsub Rops (s * x3, s * y3) (s * x1, s * y1))))
+  = omap (fun S : R * R => (s * fst S, s * snd S))
+      (g_intersect_2lines2D Rops
+        (wdiv Rops (wadd Rops (x1, y1) (x2, y2)) (oZ Rops 2))
+        (snd (wsub Rops (x2, y2) (x1, y1)), osub Rops (o0 Rops) (fst (wsub Rops (x2, y2) (x1, y1))))
+        (wdiv Rops (wadd Rops (x1, y1) (x3, y3)) (oZ Rops 2))
+        (snd (wsub Rops (x3, y3) (x1, y1)), osub Rops (o0 Rops) (fst (wsub Rops (x3, y3) (x1, y1))))).
+Proof.
+  intros Hs. unfold g_intersect_2lines2D. cbv zeta.
+  set (d1 := (snd (wsub Rops (x2, y2) (x1, y1)), osub Rops (o0 Rops) (fst (wsub Rops (x2, y2) (x1, y1))))).
+  set (d2 := (snd (wsub Rops (x3, y3) (x1, y1)), osub Rops (o0 Rops) (fst (wsub Rops (x3, y3) (x1, y1))))).
+  set (d1s := (snd (wsub Rops (s * x2, s * y2) (s * x1, s * y1)), osub Rops (o0 Rops) (fst (wsub Rops (s * x2, s * y2) (s * x1, s * y1))))).
+  set (d2s := (snd (wsub Rops (s * x3, s * y3) (s * x1, s * y1)), osub Rops (o0 Rops) (fst (wsub Rops (s * x3, s * y3) (s * x1, s * y1))))).
+  set (eps := odiv Rops (oZ Rops 1) (oZ Rops 1000000000000000000000000)).
+  assert (G : oleb Rops (omul Rops (g_det2 Rops d1s d2s) (g_det2 Rops d1s d2s)) (omul Rops (omul Rops eps (dot2 Rops d1s d1s)) (dot2 Rops d2s d2s))
+            = oleb Rops (omul Rops (g_det2 Rops d1 d2) (g_det2 Rops d1 d2)) (omul Rops (omul Rops eps (dot2 Rops d1 d1)) (dot2 Rops d2 d2))).
+  { cbn [Rops oleb omul].
+    match goal with |- Rleb ?a ?b = Rleb ?c ?d =>
+      rewrite <- (Rleb_scale (s * s * s * s) c d) by (repeat apply Rmult_lt_0_compat; assumption) end.
+    f_equal; unfold d1, d2, d1s, d2s, g_det2, dot2, wsub; cbn [Rops osub omul oadd o0 fst snd]; ring. }
+  rewrite G. clear G.
+  destruct (oleb Rops (omul Rops (g_det2 Rops d1 d2) (g_det2 Rops d1 d2)) (omul Rops (omul Rops eps (dot2 Rops d1 d1)) (dot2 Rops d2 d2))) eqn:E;
+    [reflexivity|]. cbn [omap]. f_equal.
+  apply (guard_det _ _ _ eps_pos) in E.
+  unfold d1, d2, d1s, d2s, g_det2, wsub, wadd, wdiv, wscale, dot2 in *. unfR. cbn [fst snd] in *.
+  assert (S2 : s * s <> 0) by nra.
+  f_equal; field; (split; [lra|]);
+    match goal with |- ?x <> 0 =>
+      replace x with (s * s * ((y2 - y1) * (0 - (x3 - x1)) - (0 - (x2 - x1)) * (y3 - y1))) by ring;
+      apply Rmult_integral_contrapositive_currified; [exact S2|exact E] end.
+Qed.
+
+Theorem circumcenter_scale (s : R) (A B C : V3) : 0 < s -> 0 < n2 (cross (B -v A) (C -v A)) ->
+  g_circumcenter Rops (scl s A) (scl s B) (scl s C) = omap (scl s) (g_circumcenter Rops A B C).
+Proof.
+  intros Hs ND. unfold g_circumcenter. rewrite face_basis_scale by assumption.
+  destruct (g_face_basis Rops A B C) as [[X Y] Z]. cbv zeta.
+  assert (D : forall U v, dotR U (scl s v) = s * dotR U v) by (intros U v; dvec U; dvec v; unfold scl; unfR; ring).
+  rewrite !D. rewrite intersect_scale by assumption.
+  destruct (g_intersect_2lines2D Rops _ _ _ _) as [[sx sy]|]; [|reflexivity]. cbn [omap fst snd]. f_equal.
+  dvec X. dvec Y. dvec Z. unfold scl. unfR. apply vec_eq3; ring.
+Qed.
+
+Lemma face_circumcenter_scale (s : R) (m : mesh R) : 0 < s -> wf_mesh m ->
+  (forall F, In F (faces m) ->
+     0 < n2 (cross (P Rops m (znth F 1 0%Z) -v P Rops m (znth F 0 0%Z)) (P Rops m (znth F 2 0%Z) -v P Rops m (znth F 0 0%Z)))) ->
+  face_circumcenter Rops (map_mesh (scl s) m) = map (omap (scl s)) (face_circumcenter Rops m).
+Proof.
+  intros Hs WF ND. unfold face_circumcenter. cbn [faces map_mesh]. rewrite map_map. apply map_ext_in. intros F HF.
+  destruct (wf_faces m WF F HF) as [L _].
+  rewrite !(P_map (scl s) m) by (apply (face_vertex_rng m WF); [assumption|Lia.lia]).
+  apply circumcenter_scale; [assumption|apply ND, HF].
 Qed.
